@@ -141,6 +141,36 @@ func discharge(w *World, obls []*Obligation, opt dischargeOpts) {
 		}(i, o)
 	}
 	wg.Wait()
+	// A time-out is no verdict.  Under load (other checks running beside this one) a goal that normally takes a
+	// second or two can run out of time; the few goals that timed out are tried once more, fewer at a time and with
+	// three times the limit, before they are reported as undischarged.
+	var late []int
+	for i, o := range obls {
+		if o.vc != nil && !o.Trivial && o.Status == "timeout" {
+			late = append(late, i)
+		}
+	}
+	if len(late) == 0 || len(late) > 48 || opt.timeoutS > 10 {
+		return
+	}
+	opt2 := opt
+	opt2.timeoutS = opt.timeoutS * 3
+	sem2 := make(chan struct{}, 6)
+	for _, i := range late {
+		wg.Add(1)
+		sem2 <- struct{}{}
+		go func(i int, o *Obligation) {
+			defer wg.Done()
+			defer func() { <-sem2 }()
+			first := o.Output
+			secs := o.Seconds
+			o.Status = ""
+			dischargeOne(w, i, o, opt2)
+			o.Seconds += secs
+			o.Output = first + "\n-- timed out; second attempt with " + fmt.Sprint(opt2.timeoutS) + " s:\n" + o.Output
+		}(i, obls[i])
+	}
+	wg.Wait()
 }
 
 func dischargeOne(w *World, i int, o *Obligation, opt dischargeOpts) {
